@@ -73,8 +73,8 @@ TEXTS = {
         "level_note": "Self-signed bases are re-signed on both sides so the parser's SelfSigned flag is equal (asserted).",
     },
     "C18": {
-        "technique": "exhaustive boundary sweep over the generated TLD table read as data + rapid domains/instants/certificates; integer reference model",
-        "level_text": "All ~1570 table entries are checked for well-formedness and swept at delegation/removal -1 s, 0, +1 s in three spellings and zones (both tiers); random domains/instants and generated certificates compare HasValidTLD / IsInTLDMap / CertificateSubjInTLD / e_dnsname_not_valid_tld with an integer model of the statement.",
+        "technique": "exhaustive boundary sweep over the generated TLD table read as data + rapid domains/instants/certificates; integer reference model; rapid registry data sets through the table generator (in-package, fake transport) against a table model",
+        "level_text": "All ~1570 table entries are checked for well-formedness and swept at delegation/removal -1 s, 0, +1 s in three spellings and zones (both tiers); random domains/instants and generated certificates compare HasValidTLD / IsInTLDMap / CertificateSubjInTLD / e_dnsname_not_valid_tld with an integer model of the statement. The table generator (cmd/zlint-gtld-update, sources copied verbatim from the tree at build time and tested in-package with its HTTP transport replaced) is fed generated registry data sets: it must refuse exactly when a delegated entry carries a date that is not a plain calendar date or a download fails (writing nothing), and otherwise write a gofmt-stable table equal to the model's.",
         "level_note": "The model reads the same gtld_map.go bytes the compiler sees (via go/parser), so table and model cannot drift.",
     },
     "C19": {
